@@ -418,7 +418,9 @@ static int do_run(const Args &a)
 			out_line("{\"type\":\"harness\",\"index\":" + std::to_string(i) + ",\"detail\":" + jstr(v.detail) + "}");
 			continue;
 		}
-		std::string key = v.cls + "|" + v.predicate;
+		/* at most two minimised instances per violation class and worker; the rest are recorded with the
+		 * predicates of their unminimised plan and classified by the driver */
+		std::string key = v.cls;
 		if (reported[key] >= 2) {
 			repeats++;
 			out_line("{\"type\":\"repeat\",\"index\":" + std::to_string(i) + ",\"cls\":" + jstr(v.cls) +
